@@ -90,6 +90,21 @@ def gs(rows):
     return ';'.join(core.rats(r) for r in rows) if rows else '-'
 
 
+def lower_hull(ctx, pts):
+    """lower hull used by the hull-mode rule. The package's graham_scan_lower is the oracle (C18 decides it), EXCEPT when every coordinate
+    is a small dyadic number (the float orientation test is then exact): there the hull comes from the Lean model `hullLower` evaluated on
+    the exact rationals, i.e. independently of the package."""
+    import kneeliverse.convex_hull as ch
+    hull = [int(v) for v in np.asarray(ch.graham_scan_lower(pts)).tolist()]
+    a = np.asarray(pts, float)
+    if np.all(np.isfinite(a)) and np.all(np.abs(a) < 2 ** 12) and np.all(a * 4096 == np.floor(a * 4096)):
+        m = core.parse_nats(ctx.get_driver().call('hull', ['lower', core.rats(a[:, 0]), core.rats(a[:, 1])])[0])
+        if m != hull:
+            ctx.tag('hull:model-differs-from-package(model used)')
+        return m
+    return hull
+
+
 def model_filter(ctx, pts, knees, link, t, mode):
     """model output of filter_clusters for this configuration, or None when only the relational spec applies (ties / nan)"""
     import kneeliverse.knee_ranking as kr
@@ -106,7 +121,7 @@ def model_filter(ctx, pts, knees, link, t, mode):
                 return None
             rows.append(sc)
         return core.parse_nats(d.call('cluster_filter', ['rank', core.nats(labels), core.nats(knees), gs(rows)])[0])
-    hull = [int(v) for v in np.asarray(ch.graham_scan_lower(pts)).tolist()]
+    hull = lower_hull(ctx, pts)
     rows = []
     for g in G:
         hw = [h for h in hull if g[0] <= h <= g[-1]]
@@ -186,7 +201,7 @@ def one(ctx, pts, knees, link, t, mode, family):
         else:
             ctx.tag('tie:equal-scores(relational)')
     elif mode == 'hull':
-        hull = [int(v) for v in np.asarray(ch.graham_scan_lower(pts)).tolist()]
+        hull = lower_hull(ctx, pts)
         rows = []
         for g in G:
             hw = [h for h in hull if g[0] <= h <= g[-1]]
